@@ -413,13 +413,29 @@ def trampoline_table(w):
         tc.fields[0].name = "Ref"
         val = Enum(1, [Tok("value-of", "final")])
         val.name = "Value"
-        r = Run(w, asp_answers=[ok(tc), ok(val)], epc_answers=[ok([p2, list(args2)])])
+        if getattr(w.asp, "missing", False):
+            # no apply_scheme_procedure to stub: both turns are followed through whatever code applies a user procedure; the
+            # body of the first procedure is the single form TAILCALL (its tail evaluation hands back the pending call), the
+            # body of the second is B2
+            sp1[2][:] = [w.sym("TAILCALL")]
+            r = Run(w, tail_answers={"TAILCALL": ok(tc), "B2": ok(val)}, epc_answers=[ok([p2, list(args2)])])
+        else:
+            r = Run(w, asp_answers=[ok(tc), ok(val)], epc_answers=[ok([p2, list(args2)])])
         try:
             res = r.run(w.ap, [p1, [Tok("arg", "V1")], caller])
         except (absint.Stuck, absint.Loop) as e:
             rows.append((second, {"stuck": str(e)}))
             continue
         au = [e for e in r.events if e[0] == "apply-user"]
+        if getattr(w.asp, "missing", False):
+            # one synthetic application record per frame created: (formals, defs, body, env, args) recovered from the events
+            au = []
+            frames = [e for e in r.events if e[0] == "new_child"]
+            for e in frames:
+                defs = [x for x in r.events if x[0] == "define" and x[1] is e[1]]
+                tails = [x for x in r.events if x[0] == "tail" and x[2] is e[1]]
+                spx = sp1 if (tails and tails[0][1] == "TAILCALL") else (sp2 if (tails and tails[0][1] == "B2") else (sp1 if not au else [None, None, None]))
+                au.append(("apply-user", spx[0], spx[1], spx[2], e[2], [x[3] for x in defs]))
         ab = [e for e in r.events if e[0] == "apply-builtin"]
         etc = [e for e in r.events if e[0] == "eval-tail-call"]
         rows.append((second, {"result": res, "user_applications": au, "builtin_applications": ab, "tail_call_evals": etc,
